@@ -125,6 +125,16 @@ def apply_redis(sut, ref, op, kind):
         if name == "reopen":
             sut.reopen()
             return None
+        if name == "tick":
+            # a third of the time-to-live passes on the server
+            if not sut.server.ttl:
+                return "skip"
+            for k in sorted(sut.server.ttl):
+                sut.server.ttl[k] -= TTL // 3
+                if sut.server.ttl[k] <= 0:
+                    sut.server.delete(k)
+                    ref.pop(k.split(":", 1)[1], None)
+            return None
         st = sut.clients[op[1]]
         if name == "set":
             v = copy.deepcopy(vals[op[3]])
@@ -202,10 +212,15 @@ def bfs_redis(kind, tier, config="symmetric"):
     elif config == "batch":
         # closed configuration for coalesced invalidation messages: client 0 reads (plain and cached), client 1 writes
         KEYS, CAP, MAXQ = (["k1", "k2"], 2, 2) if tier == "quick" else (["k1", "k2", "k3"], 2, 3)
+    elif config == "expiry":
+        # closed configuration with a clock: time passes in steps of a third of the time-to-live, a key whose time runs out is gone
+        KEYS, CAP, MAXQ = ["k1"], 2, 1
     else:
         KEYS, CAP, MAXQ = ["k1", "k2", "k3"], 2, 2
     sut = RedisSut(kind)
     ops = redis_ops(kind)
+    if config == "expiry":
+        ops = [o for o in ops if (o[0] in ("set", "get", "ttl", "delete", "nested", "append", "cached", "inval") and o[1] == 0) or (o[0] == "set" and o[1] == 1)] + [("tick",)]
     if config == "batch":
         nonempty = [v for v in (VALS if kind == "redis-dict" else LVALS) if (VALS if kind == "redis-dict" else LVALS)[v]]
         ops = [o for o in ops if (o[0] in ("get", "cached", "inval", "invalall") and o[1] == 0)
@@ -324,6 +339,16 @@ def cold_paths(kind, tier):
     return {"kind": kind + "/cold-start", "states": len(seen_states), "transitions": transitions, "findings": findings, "capped": False, "distinct": len(seen_states)}
 
 # ------------------------------------------------------------------------------------------------------
+# what an unreadable store file can look like (argument: the bytes of the intact file)
+CORRUPT = {
+    "notjson": lambda good: b"{not json",
+    "truncated": lambda good: good[: max(1, len(good) // 2)] if len(good) > 2 else b"{",
+    "empty": lambda good: b"",
+    "binary": lambda good: b"\x1f\x8b\x08\x00\xfe\xff\x80\x81",
+    "latin1": lambda good: '{"caf\u00e9": {}}'.encode("latin-1"),
+    "utf16": lambda good: '{"k": {}}'.encode("utf-16"),
+}
+
 def bfs_local(kind, tier):
     """JSONStore / SimpleStore: one client, plus reopen (JSON) and corrupt-file reopen."""
     from harness import world
@@ -341,7 +366,7 @@ def bfs_local(kind, tier):
         ops += [("get", k), ("cached", k), ("delete", k), ("contains", k), ("ttl", k), ("nested", k), ("writeback", k), ("writeback-copy", k)]
     ops += [("iter",), ("len",)]
     if kind == "json":
-        ops += [("reopen",), ("corrupt-reopen",), ("factory-reopen",)]
+        ops += [("reopen",), ("factory-reopen",)] + [("corrupt-reopen", c) for c in sorted(CORRUPT)]
     def mutate(st, r2, op):
         """The state-changing operations, on the store and on the reference (used to replay a path and to take a step)."""
         n = op[0]
@@ -424,10 +449,17 @@ def bfs_local(kind, tier):
                         if not isinstance(st2, S.JSONStore) or (plain(dict(st2)) != r2 and not dirty):
                             v = ("lost-after-reopen", "create_ASL_store(%s) -> %s holding %r" % (path, type(st2).__name__, plain(dict(st2))))
                     elif n == "corrupt-reopen":
-                        open(path, "w").write("{not json")
+                        good = open(path, "rb").read() if os.path.exists(path) else b"{}"
+                        open(path, "wb").write(CORRUPT[op[1]](good))
                         st2 = S.JSONStore(path)
                         if len(st2) != 0:
-                            v = ("corrupt-file-not-empty", "a store opened on an unreadable file holds %r" % (plain(dict(st2)),))
+                            v = ("corrupt-file-not-empty", "a store opened on an unreadable file (%s) holds %r" % (op[1], plain(dict(st2)),))
+                        else:
+                            # ... and is a working store from then on
+                            st2["after"] = {"x": 1}
+                            if plain(dict(S.JSONStore(path))) != {"after": {"x": 1}}:
+                                v = ("corrupt-file-store-unusable", "a write to the store opened on an unreadable file (%s) is not read back" % op[1])
+                        open(path, "wb").write(good)
                 except Exception as e:
                     v = ("raises-%s" % type(e).__name__, "%r raised %s: %s" % (op, type(e).__name__, e))
                 transitions += 1
@@ -470,7 +502,7 @@ def _job(args):
 
 def run(tier, seed):
     cr = common.CheckResult(PROP)
-    jobs = [("json", tier), ("simple", tier)] + [(k, tier, c) for k in ("redis-dict", "redis-list") for c in ("asymmetric", "symmetric", "batch", "cold-start")]
+    jobs = [("json", tier), ("simple", tier)] + [(k, tier, c) for k in ("redis-dict", "redis-list") for c in ("asymmetric", "symmetric", "batch", "cold-start", "expiry")]
     ctx = multiprocessing.get_context("fork")
     with ctx.Pool(10) as pool:
         outs = pool.map(_job, jobs, chunksize=1)
@@ -483,7 +515,7 @@ def run(tier, seed):
         "traces_validated_against_impl": sum(o["transitions"] for o in outs),
         "distinct_states": {o["kind"]: o["distinct"] for o in outs}, "capped": [o["kind"] for o in outs if o["capped"]], "exhaustive": not any(o["capped"] for o in outs),
         "samples": [{"store": "redis-dict", "ops": [["set", 0, "k1", "V1"], ["cached", 1, "k1"], ["nested", 0, "k1"], ["inval", 1], ["cached", 1, "k1"]]}],
-        "explanation": "per store kind a breadth-first search over operation sequences (set, nested update / append through the returned view, get, get_cached_view, delete, in, iterate, len, set_ttl, reopen, "
+        "explanation": "per store kind a breadth-first search over operation sequences (set, nested update / append through the returned view, get, get_cached_view, delete, in, iterate, len, set_ttl, reopen, the passing of a third of the time-to-live (expiry configuration), "
                        "corrupt-file reopen, deliver one queued invalidation to a client, deliver all queued invalidations to a client as one multi-key message) over 3 keys x 3 values, two clients for the Redis kinds with cache capacity 2, to a fixed point of the canonical state "
                        "(backend contents + time-to-live + each client's cache + queued invalidations + tracked keys); every placement of every invalidation between operations is a transition; oracle: a dict",
     }
